@@ -23,6 +23,9 @@ type Profile struct {
 	ClosureBias int  // higher = more closure statements
 	Makers      bool // methods that return closures over their own locals and parameters
 	Deep        bool // deep(n, f): call a closure below n extra (non-tail) frames
+	// generator methods (def *g ... yield e ...) consumed by for-in loops in main; the reference
+	// interpreter does not support them: only for checks that compare the implementation with itself (C12)
+	Generators bool
 	// known finding (C14 catch-exit-skips-finally): no jump and no call inside a catch
 	// clause of a do expression that also has a finally clause
 	NoExitFromCatchWithFinally bool
@@ -50,6 +53,7 @@ type fnCtx struct {
 	inFinally int // > 0: no jumps (break/continue/return/throw) are generated
 	noCalls   int // > 0: no method / closure calls are generated
 	isFn      bool
+	isGen     bool // generator method: `yield` statements are generated
 	noReturn  bool // body must not contain `return` (the method does not return Int)
 	inHandler int  // > 0: inside a catch clause or a finally block
 	// > 0: inside the body of a do expression that has a finally clause, or after a defer in this
@@ -129,10 +133,25 @@ func Gen(t *rapid.T, p Profile) *Program {
 			g.genMaker()
 		}
 	}
+	var gens []*N
+	if p.Generators {
+		for i := 1 + g.draw(2, "ngens"); i > 0; i-- {
+			gens = append(gens, g.genGenerator())
+		}
+	}
 	g.scopes = [][]vinfo{nil}
 	g.fns = []*fnCtx{{}}
 	prog.Main = g.block(rapid.IntRange(3, 10).Draw(t, "nmain"), 0, false)
-	prog.Methods = append(g.meths, g.makers...)
+	for _, gm := range gens {
+		// consume the generator: for v in g(args) println(v) end
+		call := &N{K: "call", S: gm.S, T: TLInt}
+		for range gm.X {
+			call.C = append(call.C, &N{K: "int", I: int64(g.draw(5, "garg")), T: TInt})
+		}
+		v := g.fresh("y")
+		prog.Main = append(prog.Main, &N{K: "forin", S: v, C: []*N{call}, B: [][]*N{{{K: "print", C: []*N{{K: "var", S: v, T: TInt}}}}}})
+	}
+	prog.Methods = append(append(g.meths, g.makers...), gens...)
 	prog.UsesDeep = g.usesDeep
 	prog.UsesTr = g.usesTr
 	prog.Restricted = g.Restricted
@@ -158,6 +177,27 @@ func (g *G) genMethod() {
 	m.B = [][]*N{body}
 	g.scopes, g.fns = savedScopes, savedFns
 	g.meths = append(g.meths, m)
+}
+
+// genGenerator generates a generator method; it is not callable from generated expressions.
+func (g *G) genGenerator() *N {
+	name := g.fresh("g")
+	m := &N{K: "def", S: name, T: TInt, I: 1}
+	savedScopes, savedFns := g.scopes, g.fns
+	g.scopes = [][]vinfo{nil}
+	g.fns = []*fnCtx{{isFn: true, isGen: true}}
+	for i := g.draw(3, "ngparams"); i > 0; i-- {
+		pn := g.fresh("p")
+		m.X = append(m.X, &N{K: "param", S: pn, T: TInt})
+		g.declare(vinfo{pn, TInt, true}) // the checker does not allow reassigning a generator's parameters
+	}
+	body := []*N{{K: "yield", C: []*N{g.expr(TInt, 1)}}}
+	body = append(body, g.block(rapid.IntRange(2, 7).Draw(g.t, "ngbody"), 1, true)...)
+	g.makeConditional(body[len(body)-1])
+	body = append(body, &N{K: "expr", C: []*N{g.expr(TInt, 2)}})
+	m.B = [][]*N{body}
+	g.scopes, g.fns = savedScopes, savedFns
+	return m
 }
 
 // genMaker generates a method that returns a closure over its parameters and locals.
@@ -325,11 +365,16 @@ func (g *G) stmt(depth int) []*N {
 			kinds = append(kinds, "do", "do")
 		}
 		kinds = append(kinds, "loop", "loop", "if")
-		if g.p.Closures {
+		// no closures inside generator bodies: a closure that captures a generator's local reads a stale
+		// stack slot after a yield (recorded C15 finding), which would make behaviour layout-dependent
+		if g.p.Closures && !f.isGen {
 			for i := 0; i < g.p.ClosureBias; i++ {
 				kinds = append(kinds, "closure")
 			}
 		}
+	}
+	if f.isGen && f.inFinally == 0 {
+		kinds = append(kinds, "yield", "yield")
 	}
 	if g.p.Defer && f.inFinally == 0 {
 		kinds = append(kinds, "defer")
@@ -352,6 +397,8 @@ func (g *G) stmt(depth int) []*N {
 	switch k := kinds[g.draw(len(kinds), "stmt")]; k {
 	case "trace":
 		return []*N{g.trace()}
+	case "yield":
+		return []*N{{K: "yield", C: []*N{g.expr(TInt, 2)}}}
 	case "print":
 		t := []Type{TInt, TInt, TStr, TBool, TNInt}[g.draw(5, "pt")]
 		return []*N{{K: "print", C: []*N{g.expr(t, 2)}}}
